@@ -187,16 +187,35 @@ def r01_2(ctx, rep, roles, pm):
     ok = len(rows) == 1 and rows[0].ret is not None and rows[0].ret[0] == "call" and rows[0].ret[1] == roles.fd_scheduled["id"]
     rep.obligation(ok, "C01/R01.2/forwarding", "Chitchat::scheduled_for_deletion_nodes does not forward to the failure detector's "
                    "scheduled set", where(sched), sample="scheduled_for_deletion_nodes() = failure_detector.scheduled_for_deletion_nodes()")
-    # compute_digest filters with the set it is given
+    # compute_digest filters with the set it is given: an entry is added <=> its id is not in the exclusion set, whatever the style
+    # (iterator chain ending in collect(), or a for loop with insert)
     dg = roles.compute_digest
-    eng3 = sym.Engine(fx)
-    okf = False
-    for c in fx.closures_of(dg["id"]):
-        rows = eng3.table(c)
-        for row in rows:
-            if row.exit == "return" and row.ret is not None and row.ret[0] in ("un", "call", "op"):
-                if any(s[0] == "call" and sym.strip_all_generics(s[1]).endswith("::contains") for s in T.subterms(row.ret)):
-                    okf = row.ret[0] == "un" and row.ret[1] == "Not"
+    eng3 = sym.Engine(fx, no_inline={roles.node_digest["id"]})
+    rows3 = eng3.table(dg["id"], arg_terms={1: ("ptr", ("S", "self"), ()), 2: ("ptr", ("S", "excl"), ())})
+    items = T.collection_items(eng3, rows3)
+    okf = bool(items)
+    # each loop-body row: conditions over contains(excl, id) / is_empty(excl); evaluated on the consistent assignments of
+    # (member, empty) — empty implies not member — the row that applies must add the entry iff the id is not a member
+    parsed = []
+    for row, adds in items:
+        lits = []
+        for c in row.cond:
+            if c[0] == "variant" and c[1][0] == "call" and c[1][1].endswith("::next"):
+                continue
+            t, pol = c[1], (c[2] if c[0] == "truth" else None)
+            if c[0] == "truth" and t[0] == "un" and t[1] == "Not":
+                t, pol = t[2], not pol
+            nm = sym.strip_all_generics(t[1]).split("::")[-1] if t[0] == "call" else None
+            on_excl = t[0] == "call" and t[2] and any(x[0] in ("obj", "ptr") and x[1] == ("S", "excl") for x in T.subterms(t[2][0]))
+            if c[0] == "truth" and on_excl and nm in ("contains", "is_empty"):
+                lits.append((nm, pol))
+            else:
+                okf = False
+        parsed.append((lits, len(adds)))
+    for member, empty in ((False, False), (False, True), (True, False)):
+        applies = [n_add for lits, n_add in parsed if all((member if nm == "contains" else empty) == pol for nm, pol in lits)]
+        if not applies or any(n_add != (0 if member else 1) for n_add in applies):
+            okf = False
     rep.obligation(okf, "C01/R01.2/digest-filter", "compute_digest does not keep exactly the members outside the exclusion set", where(dg),
                    sample="compute_digest: filter(!exclusion.contains(id))")
     rep.instance(n)
